@@ -164,7 +164,7 @@ def stepLine (d : D) (w : List String) : D × String :=
     match cap.toNat? with
     | some c =>
       let iour := drv == "iour"
-      ({ iour := iour, cap := c, ring := { sqCap := nextPow2 c } }, "cfg")
+      ({ iour := iour, cap := c, ring := { sqCap := nextPow2 c }, os := { iour := iour } }, "cfg")
     | none => (d, "bad-op")
   | ["rpipe", c] => match c.toNat? with
     | some c => ((d.setOs (setChan d.getOs c { kind := .rpipe })) |> fun d => { d with chans := d.chans ++ [c] }, "ok")
@@ -196,9 +196,14 @@ def stepLine (d : D) (w : List String) : D × String :=
     | none => (d, "bad-op")
   | ["drain", c] => match c.toNat? with
     | some c =>
+      -- the harness reads until EAGAIN; on io_uring an armed write/send is retried by the kernel as soon as
+      -- room appears, i.e. during the drain, and what it writes is drained as well
       let ch := d.getOs.chans c
-      let o := s!"data f={if ch.filled then 1 else 0} {hexOf ch.wbuf}"
-      ((d.setOs (setChan d.getOs c { ch with wbuf := [], filled := false })).kick, o)
+      let d1 := (d.setOs (setChan d.getOs c { ch with wbuf := [], filled := false })).kick
+      let ch1 := d1.getOs.chans c
+      let d2 := if d.iour then (d1.setOs (setChan d1.getOs c { ch1 with wbuf := [] })).kick else d1
+      let extra := if d.iour then ch1.wbuf else []
+      (d2, s!"data f={if ch.filled then 1 else 0} {hexOf (ch.wbuf ++ extra)}")
     | none => (d, "bad-op")
   | "push" :: k :: "lazy" :: rest => match k.toNat?, parseKind rest with
     | some id, some kind =>
@@ -249,6 +254,8 @@ def stepLine (d : D) (w : List String) : D × String :=
     | none => (d, "bad-op")
   | ["cancel", k] => match k.toNat? with
     | some id =>
+      -- only a key the user still holds can be passed to `Proactor::cancel`
+      if !(d.live.contains id || d.lazy.contains id) then withScan (d, "none") else
       let d0 := { d with live := d.live.erase id, lazy := d.lazy.erase id }
       if d.iour then
         match d0.ring.keys.pop id with
